@@ -9,7 +9,9 @@ TInit == PrInit /\ l = 1
 TNext == /\ l <= Len(Trace) /\ l' = l + 1
          /\ Run(Trace[l].key, Trace[l].proc, Trace[l].obs, Trace[l].pollutes = 1, Trace[l].methods = 1)
 TSpec == TInit /\ [][TNext]_<<prvars, l>>
-TraceKeys == {Trace[i].key : i \in 1..Len(Trace)}
+\* (LET: the file is parsed once; TraceKeys is substituted for a constant, and TLC evaluates that
+\* substitution before it has cached Trace, i.e. once per reference to it)
+TraceKeys == LET T == Trace IN {T[i].key : i \in 1..Len(T)}
 Matched == TLCGet("stats").diameter - 1
 TraceAccepted == /\ PrintT(<<"MATCHED", Matched, Len(Trace)>>)
                  /\ Matched = Len(Trace)
